@@ -7,7 +7,9 @@ COQ_IMPORTS = ['C05_Model']
 ALPHA = 'ACGTRYSWKMBDHVN.-'
 OPS = {'complement': 0, 'rc': 1, 'rev_complement': 2, 'rc_rc': 3, 'gc': 4, 'reverse': 5}
 RULE = ('all 18 single symbols, every string up to length 2 (quick) / 4 (thorough) over the 17-symbol alphabet, random DNA/RNA '
-        'strings up to 3000 residues; ops complement, rc, reverse.complement, rc.rc, gc counts, seq- and basket-level; '
+        'strings up to 3000 residues; ops complement, rc, reverse.complement, rc.rc, gc counts, seq- and basket-level; a history stream '
+        '(object edited in place - alphabet switched, residues assigned, +=, copy, rc - before the operation; baskets holding a sequence '
+        'next to its own reverse complement or a duplicate, without ids); '
         'non-trivial = distinct (op, string) containing an ambiguity code, a gap or U')
 TRUSTED = ['CPython str.translate/str.replace/slicing (modelled as per-character maps, compared on every case)',
            'modelled: BioSeq.complement/reverse/rc/gc, BioBasket.rc/complement (seq.py:336-355,486-494,584-589,766-772,876-902)']
@@ -48,14 +50,87 @@ def gen_cases(rng, tier):
             alpha = ALPHA + 'U'          # mixed T and U
         s = ''.join(rng.choice(alpha) for _ in range(n))
         cases.append({'op': rng.choice(list(OPS)), 's': s, 'basket': rng.random() < 0.3})
+    # history stream: the object is built from one string and edited in place (alphabet switched, residues assigned,
+    # copied) before the operation; baskets with several sequences incl. a sequence next to its own reverse complement
+    nhist = 3000 if tier == 'thorough' else 400
+    for _ in range(nhist):
+        n = rng.choice([1, 2, 3, 4, 6, 9, 15, 40])
+        s = ''.join(rng.choice(ALPHA if rng.random() < 0.7 else 'ACGT') for _ in range(n))
+        pre = [rng.choice(['t2u', 'u2t', 'set0U', 'set0T', 'copy', 'iaddU', 'dataU', 'rc']) for _ in range(rng.randrange(1, 4))]
+        others = []
+        if rng.random() < 0.6:
+            k = rng.randrange(1, 4)
+            for _ in range(k):
+                r = rng.random()
+                if r < 0.4:
+                    others.append(spec_complement(s[::-1]))      # the reverse complement of the first sequence
+                elif r < 0.6:
+                    others.append(s)
+                else:
+                    others.append(''.join(rng.choice(ALPHA) for _ in range(rng.randrange(0, 6))))
+        cases.append({'op': rng.choice(['complement', 'rc', 'rev_complement', 'rc_rc', 'reverse']), 's': s, 'basket': bool(others),
+                      'pre': pre, 'others': others})
     return cases
+
+
+def apply_pre_str(s, pre):
+    """what the residue string is after the in-place edits (pure string semantics)"""
+    for e in pre:
+        if e == 't2u':
+            s = s.replace('T', 'U')
+        elif e == 'u2t':
+            s = s.replace('U', 'T')
+        elif e == 'set0U' and s:
+            s = 'U' + s[1:]
+        elif e == 'set0T' and s:
+            s = 'T' + s[1:]
+        elif e == 'iaddU':
+            s = s + 'U'
+        elif e == 'dataU':
+            s = s.replace('T', 'U')
+        elif e == 'rc':
+            s = spec_complement(s[::-1])
+    return s
+
+
+def apply_pre_obj(seq, pre):
+    for e in pre:
+        if e == 't2u':
+            seq.str.replace('T', 'U')
+        elif e == 'u2t':
+            seq.str.replace('U', 'T')
+        elif e == 'set0U' and len(seq):
+            seq[0] = 'U'
+        elif e == 'set0T' and len(seq):
+            seq[0] = 'T'
+        elif e == 'iaddU':
+            seq += 'U'
+        elif e == 'dataU':
+            seq.data = seq.data.replace('T', 'U')
+        elif e == 'copy':
+            seq = seq.copy()
+        elif e == 'rc':
+            seq.rc()
+    return seq
+
+
+def cur(case):
+    return apply_pre_str(case['s'], case.get('pre', []))
 
 
 def impl(case):
     from sugar import BioSeq, BioBasket
     s, op = case['s'], case['op']
-    seq = BioSeq(s)
-    obj = BioBasket([seq, BioSeq('ACGT')]) if case['basket'] else seq
+    seq = apply_pre_obj(BioSeq(s), case.get('pre', []))
+    assert str(seq) == cur(case), 'in-place edits did not produce the expected residue string'
+    s = cur(case)
+    others = case.get('others')
+    if others is not None and others:
+        oseqs = [BioSeq(o) for o in others]
+        obj = BioBasket([seq] + oseqs)
+    else:
+        oseqs = None
+        obj = BioBasket([seq, BioSeq('ACGT')]) if case['basket'] else seq
     if op == 'gc':
         GC = seq.str.count('G') + seq.str.count('C')
         AT = seq.str.count('A') + seq.str.count('T') + seq.str.count('U')
@@ -75,18 +150,24 @@ def impl(case):
     else:
         r = obj.reverse()
     assert r is obj, 'in-place operation must return the receiver'
-    if case['basket']:
+    if oseqs is not None:
+        c = spec_complement
+        exp = {'complement': c, 'rc': lambda x: c(x[::-1]), 'rev_complement': lambda x: c(x)[::-1],
+               'rc_rc': lambda x: c(c(x[::-1])[::-1]), 'reverse': lambda x: x[::-1]}[op]
+        got_o = [str(x) for x in obj[1:]]
+        assert got_o == [exp(o) for o in others], 'basket-level operation differs from the per-sequence operation: %r vs %r' % (got_o, [exp(o) for o in others])
+    elif case['basket']:
         assert str(obj[1]) == {'complement': 'TGCA', 'rc': 'ACGT', 'rev_complement': 'ACGT', 'rc_rc': 'ACGT', 'reverse': 'TGCA'}[op]
     return str(seq)
 
 
 def model_term(case):
-    return 'out (run_C05 %s %s)' % (coq_N(OPS[case['op']]), coq_bs(case['s']))
+    return 'out (run_C05 %s %s)' % (coq_N(OPS[case['op']]), coq_bs(cur(case)))
 
 
 def spec(case, got):
     """Property-level oracle, independent of the Coq model."""
-    s, op = case['s'], case['op']
+    s, op = cur(case), case['op']
     if isinstance(got, dict):
         return 'raised %s' % got['e']
     if op == 'gc':
@@ -103,7 +184,9 @@ def spec(case, got):
 
 
 def nontrivial(case, got):
-    s = case['s']
+    s = cur(case)
+    if case.get('pre'):
+        return 'history:' + case['op']
     if any(ch in s for ch in 'RYSWKMBDHVN.-U'):
         return case['op']
     return None
@@ -111,6 +194,8 @@ def nontrivial(case, got):
 
 def histkey(case, got):
     n = len(case['s'])
+    if case.get('pre'):
+        return ['op=' + case['op'], 'history'] + ['pre=' + e for e in case['pre']] + (['basket%d' % len(case.get('others') or [])])
     return ['op=' + case['op'], 'len=' + ('0' if n == 0 else '1-4' if n <= 4 else '5-99' if n < 100 else '100+'),
             'rna' if 'U' in case['s'] else 'dna']
 
@@ -127,3 +212,5 @@ LEVEL_NOTE = ('Trusted: Coq kernel/vm_compute, tools/gen_data.py (tables), the c
               'All theorems closed under the global context (no axioms).')
 
 MODELLED_FUNCS = {'sugar/core/seq.py': ['BioSeq.complement', 'BioSeq.reverse', 'BioSeq.rc', 'BioSeq.gc', 'BioBasket.rc', 'BioBasket.complement', 'BioBasket.reverse']}
+
+NO_SHRINK_KEYS = {'pre'}
